@@ -230,8 +230,9 @@ def mask_indet(summary, cn, dump):
     return ' '.join(x for x in dump.split() if x.split('=')[0] not in ind)
 
 
-def compare_read(summary, a, b):
-    """model vs implementation readfile answers, indeterminate members masked"""
+def compare_read(summary, a, b, ignore_usize=False):
+    """model vs implementation readfile answers, indeterminate members masked.  ignore_usize: for corrupt files the
+    parser may stop (and the application close the file) while the inflater is still counting containers"""
     if a == b:
         return True
     if 'outcome=hang' in a and 'outcome=hang' in b:
@@ -240,6 +241,8 @@ def compare_read(summary, a, b):
         return True
     da, sa, oa = split_read(a)
     db, sb, ob = split_read(b)
+    if ignore_usize:
+        da.pop('usize', None); db.pop('usize', None)
     if da != db or sa != sb or len(oa) != len(ob):
         return False
     return all(x[0] == y[0] and mask_indet(summary, x[0], x[1]) == mask_indet(summary, y[0], y[1]) for x, y in zip(oa, ob))
